@@ -32,15 +32,21 @@ class EnvelopeError(ValueError):
     pass
 
 
+def _rg(default, comfortable):
+    """input range: the documented contract, or (regime 'comfortable') a range in which no refusal or corner case can
+    occur whatever the other inputs are, so that a counterexample found in the sign abstraction replays on the real code"""
+    return comfortable if cur().notes.get('regime') == 'comfortable' else default
+
+
 class PM:
     """nondeterministic performance model: any answers within the documented contract, or an out-of-envelope refusal"""
 
     def __init__(self, tag=''):
         self.tag = tag
-        self.maximum_altitude = sym(f'{tag}ceiling', 3000.0, 20000.0)
-        self.maximum_payload = sym(f'{tag}max_payload', 0.0, 1e5)
-        self.empty_mass = sym(f'{tag}empty_mass', 1.0, 3e5)
-        self.maximum_mass = sym(f'{tag}max_mass', 1.0, 6e5)
+        self.maximum_altitude = sym(f'{tag}ceiling', *_rg((3000.0, 20000.0), (9000.0, 13000.0)))
+        self.maximum_payload = sym(f'{tag}max_payload', *_rg((0.0, 1e5), (1e4, 2e4)))
+        self.empty_mass = sym(f'{tag}empty_mass', *_rg((1.0, 3e5), (3e4, 5e4)))
+        self.maximum_mass = sym(f'{tag}max_mass', *_rg((1.0, 6e5), (5e5, 6e5)))
         cur().assume(self.maximum_mass > self.empty_mass)
         self.performance_table = Table()
         self.performance_table.tas = [sym(f'{tag}table_tas_min', 1.0, 400.0)]
@@ -56,13 +62,13 @@ class PM:
             e = EnvelopeError('One of the requested xi is out of bounds in dimension 0')
             cur().notes.setdefault('injected', []).append(e)
             raise e
-        tas = sym(f'{self.tag}tas{k}', 1.0, 400.0)
-        ff = sym(f'{self.tag}ff{k}', 0.0, 50.0, lo_strict=True)
+        tas = sym(f'{self.tag}tas{k}', *_rg((1.0, 400.0), (100.0, 250.0)))
+        ff = sym(f'{self.tag}ff{k}', *_rg((0.0, 50.0), (0.5, 2.0)), lo_strict=True)
         if rules == SimpleFlightRules.CLIMB:
-            roc = sym(f'{self.tag}roc{k}', 0.0, 100.0, lo_strict=True)
+            roc = sym(f'{self.tag}roc{k}', *_rg((0.0, 100.0), (5.0, 30.0)), lo_strict=True)
             cur().assume(roc < tas)
         elif rules == SimpleFlightRules.DESCEND:
-            roc = sym(f'{self.tag}roc{k}', -100.0, 0.0, hi_strict=True)
+            roc = sym(f'{self.tag}roc{k}', *_rg((-100.0, 0.0), (-30.0, -5.0)), hi_strict=True)
             cur().assume(-roc < tas)
         else:
             roc = 0.0
@@ -73,8 +79,8 @@ class PM:
 class Mis:
     def __init__(self, tag=''):
         from AEIC.types import Position
-        self.origin_position = Position(sym(f'{tag}o_lon', -180.0, 180.0), sym(f'{tag}o_lat', -90.0, 90.0), sym(f'{tag}o_alt', 0.0, 6000.0))
-        self.destination_position = Position(sym(f'{tag}d_lon', -180.0, 180.0), sym(f'{tag}d_lat', -90.0, 90.0), sym(f'{tag}d_alt', 0.0, 6000.0))
+        self.origin_position = Position(sym(f'{tag}o_lon', -180.0, 180.0), sym(f'{tag}o_lat', -90.0, 90.0), sym(f'{tag}o_alt', *_rg((0.0, 6000.0), (0.0, 500.0))))
+        self.destination_position = Position(sym(f'{tag}d_lon', -180.0, 180.0), sym(f'{tag}d_lat', -90.0, 90.0), sym(f'{tag}d_alt', *_rg((0.0, 6000.0), (0.0, 500.0))))
         self.load_factor = sym(f'{tag}load_factor', 0.0, 1.0)
         self.label = 'sym'
         self.flight_id = None
@@ -92,7 +98,7 @@ class StubTrack:
     def __init__(self, start, end):
         self.start, self.end = start, end
         self.tag = cur().notes.get('track_tag', '')
-        self.total_distance = self._sym(f'track{self.tag}_total_distance', 0.0, 2.1e7)
+        self.total_distance = self._sym(f'track{self.tag}_total_distance', *_rg((0.0, 2.1e7), (3e6, 5e6)))
         self.az0 = self._sym(f'track{self.tag}_az0', 0.0, 360.0, hi_strict=True)
         self.calls = []
 
@@ -545,8 +551,9 @@ class ReplayablePM(PM):
         return r
 
 
-def two_flights_path(npts, caps, first_may_fail=True, fail_only_at=None):
+def two_flights_path(npts, caps, first_may_fail=True, fail_only_at=None, regime=None):
     def fn(ex):
+        ex.notes['regime'] = regime
         orc = Oracle()
         out = dict(npts=npts)
         with patches(not ex.concrete, caps, orc, 'stub'):
@@ -614,7 +621,7 @@ def run_two_flights(job):
     npts, caps = tuple(job['npts']), tuple(job['caps'])
     ex = sx.Explorer(purify=True, deadline=time.time() + job.get('deadline_s', 600))
     out = dict(job=job, obligations={}, violations=[], samples=[], distinct=set(), unknown=[], outcomes={})
-    fn = two_flights_path(npts, caps, job.get('first_may_fail', True), job.get('fail_only_at'))
+    fn = two_flights_path(npts, caps, job.get('first_may_fail', True), job.get('fail_only_at'), job.get('regime'))
     for p in ex.explore(fn):
         if p.exc is not None:
             out['violations'].append(dict(obligation='harness', detail=f'{p.exc!r} {(p.tb or "")[-600:]}', values={}, tags={}))
@@ -631,10 +638,7 @@ def run_two_flights(job):
             symb = [(det, v) for det, v in items if isinstance(v, sx.SymBool)]
             if conc_false:
                 # a model of the path WITH the defining equations of the abstracted products (a genuine input), else the abstract one
-                r, m = ex.check(z3.BoolVal(True), pc=list(ex.pc) + [v_ == d_ for v_, d_ in ex.defs], timeout_ms=15000, defs=[])
-                if r == 'unsat':
-                    d['unsat'] += 1      # the path only exists in the sign abstraction
-                    continue
+                r = 'unknown'
                 if r != 'sat':
                     r, m = ex.check(z3.And(*_distinct_inputs(p.inputs)), pc=list(ex.pc), defs=[])
                     if r != 'sat':
@@ -652,7 +656,8 @@ def run_two_flights(job):
             if r == 'unsat':
                 out['distinct'].add((oid, kind))
             elif r == 'sat':
-                r2, m2 = ex.check(z3.And(z3.Not(z3.And(*[v.t for _, v in symb])), *_distinct_inputs(p.inputs)), pc=list(ex.pc), defs=[])
+                neg = z3.Not(z3.And(*[v.t for _, v in symb]))
+                r2, m2 = ex.check(z3.And(neg, *_distinct_inputs(p.inputs)), pc=list(ex.pc), defs=[])
                 if r2 == 'sat':
                     m = m2
                 failing = [det for det, v in symb if not z3.is_true(m.eval(v.t, model_completion=True))]
@@ -668,8 +673,14 @@ def run_two_flights(job):
 
 
 def replay_two_flights(job, v):
-    fn = two_flights_path(tuple(job['npts']), tuple(job['caps']), job.get('first_may_fail', True), job.get('fail_only_at'))
-    run = sx.ConcreteRun(v['values'])
+    fn = two_flights_path(tuple(job['npts']), tuple(job['caps']), job.get('first_may_fail', True), job.get('fail_only_at'), job.get('regime'))
+    values = dict(v['values'])
+    import math
+    for tag, trk in (('a_', 'trackf1_total_distance'), ('b_', 'trackf2_total_distance')):
+        # the route length the solver chose for the stub track is realised with real airports on the equator
+        if values.get(trk) is not None and 0.0 < float(values[trk]) < 1.9e7:
+            values.update({tag + 'o_lon': 0.0, tag + 'o_lat': 0.0, tag + 'd_lat': 0.0, tag + 'd_lon': math.degrees(float(values[trk]) / 6378137.0)})
+    run = sx.ConcreteRun(values)
     res, exc = run.run(fn)
     if exc is not None:
         return False, f'harness raised {exc!r}'
